@@ -95,6 +95,11 @@ TABLE = {
             "Held on the generated (text, encoding, label/BOM, fragmentation, capacity) cases apart from two listed known findings that live in the third-party transcoding crates: the event log over the encoded input equals the log over its reference UTF-8 transcoding.",
             "Reference transcoder: own WHATWG UTF-16 decoder, encoding_rs one-shot for windows-1252 / shift_jis.",
             "DESIGN.md §3 C17"),
+    "C18": (True, "fault_enumeration",
+            "runtime monitoring with fault injection through a generated --pre command whose behaviour (exit status, fault point, stderr volume, transform, kill) is configured per file, and through valid / truncated gzip, bzip2 and xz inputs under -z; rg's stdout, stderr and status compared with rg on the bytes the command actually wrote",
+            "The matrix exit status x fault point x stderr volume is enumerated (thorough) for each early-stop mode and thread count: successful commands' results equal the search of their output under the original path, unselected files are searched directly, consumed-and-failing or missing commands are reported with status 2, early-stopped commands with empty stderr are not, 4 MB of stderr never blocked.",
+            "Early stop with non-empty stderr and a failing status is unconstrained (documented ambiguity). lz4/zstd/brotli tools are not installed.",
+            "DESIGN.md §3 C18"),
     "C19": (True, "exploration",
             "runtime differential monitoring: rg -r / -o -r / context / --column / -U --passthru output vs regex::bytes::Regex::replace_all and Captures::expand computed per line by the harness (which links the same regex crate version)",
             "Held on the generated (pattern with groups, template, input, flags) cases apart from one listed known finding (braced references with odd names): replaced lines, per-match expansions, untouched non-matching lines, columns and the multi-line whole-input replacement agree with the library.",
